@@ -75,7 +75,8 @@ def check_case(rec, case):
     for name in FUNCS:
         answers = []
         for (A, B) in ((R1, R2), (R2, R1)):
-            D1, D2 = adapt.build_dfa(A), adapt.build_dfa(B)
+            scr = case.get('scr')
+            D1, D2 = adapt.build_dfa(A, scramble=scr), adapt.build_dfa(B, scramble=None if scr is None else scr + 1)
             o = call(getattr(da, name), D1, D2)
             steps = _LM.end()
             rec.counters['lines_executed'] += steps
@@ -172,7 +173,7 @@ def run(rec, rng, tier):
             check_case(rec, rc)
             return
         for case in gen_cases(rec, rng, tier):
-            check_case(rec, case)
+            check_case(rec, common.with_scramble(case))
     finally:
         if _LM is not None:
             rec.extra['anchored_line_coverage'] = _LM.coverage_report()
